@@ -55,7 +55,9 @@ import Spydr.Edif.Props.C05Kw
 #print axioms Spydr.Edif.C05.parseCell_wellformed
 #print axioms Spydr.Edif.C05.multibitAdd_wellformed
 #print axioms Spydr.Edif.C05.hasDupPin_iff
-#print axioms Spydr.Edif.C05.Witness.not_all_instances_referenced
+#print axioms Spydr.Edif.C05.all_instances_referenced
+#print axioms Spydr.Edif.C05.Witness.instance_without_viewref_rejected
+#print axioms Spydr.Edif.C05.Witness.viewref_without_cellref_rejected
 #print axioms Spydr.Edif.C05.Witness.not_always_top
 #print axioms Spydr.Edif.C05.Witness.stem_merges_two_names
 #print axioms Spydr.Edif.C05.Witness.scalar_after_bus_rejected
